@@ -242,8 +242,9 @@ class WriteBack(Harness):
     name = "writeback"
     functions = ("NpDataclassReader.read (lazy)", "LazyBNPDataClass.__getitem__/get_buffer", "BamBufferExtractor.__getitem__/_make_contigous",
                  "NpBufferedWriter.write", "BamBuffer.make_header")
-    bounds = {"quick": "1-3 records of different sizes; selections: all, every boolean mask (symbolic), reversal, [2,0,0]",
-              "thorough": "adds mask followed by slice, and 2 successive writes"}
+    bounds = {"quick": "1-3 records of different sizes; selections: all, every boolean mask (symbolic), reversal, [2,0,0]; "
+                       "3 re-orderings of 4 records; 4 histories 'read fields, write the re-ordered selection, read fields again'",
+              "thorough": "adds mask followed by slice, 2 successive writes, all 23 re-orderings of 4 records, histories on 3 selections"}
 
     def skeletons(self, tier, seed):
         R = lambda name_len, n_cigar, l_seq, n_tag: dict(name_len=name_len, n_cigar=n_cigar, l_seq=l_seq, n_tag=n_tag, unmapped=False)
@@ -256,6 +257,19 @@ class WriteBack(Harness):
                 sels += ["mask_then_slice", "two_writes"]
             for sel in sels:
                 out.append(dict(recs=recs, n_ref=2, sel=sel))
+        # re-orderings of four records (first/last kept or moved), and histories around the write: fields read before and after it
+        four = [R(1, 1, 1, 0), R(2, 0, 2, 1), R(1, 2, 1, 0), R(3, 1, 3, 2)]
+        perms = [[0, 2, 1, 3], [1, 0, 3, 2], [3, 1, 2, 0]] if tier == "quick" else [list(p) for p in itertools.permutations(range(4))][1:]
+        for p in perms:
+            out.append(dict(recs=four, n_ref=2, sel="perm", order=p))
+        hist = [(["name"], ["sequence"]), (["sequence", "cigar_op"], ["name", "quality"]), ([], ["position", "cigar_length"]),
+                (["position"], ["position", "flag", "mapq"])]
+        three = sets[2]
+        for before, after in hist:
+            out.append(dict(recs=three, n_ref=2, sel="perm", order=[2, 0, 1], before=before, after=after))
+            if tier == "thorough":
+                out.append(dict(recs=four, n_ref=2, sel="perm", order=[0, 2, 1, 3], before=before, after=after))
+                out.append(dict(recs=three, n_ref=2, sel="perm", order=[1, 2], before=before, after=after))
         return out
 
     def inputs(self, skel, V):
@@ -288,6 +302,16 @@ class WriteBack(Harness):
             mask = ctx.arr([x[f"m{i}"] for i in range(n)], "int64") == 1
             d = data[mask]
             w.write(d[1:] if sel == "mask_then_slice" else d)
+        elif sel == "perm":
+            d = data[ctx.arr(skel["order"], "int64") if ctx.mode == "plain" else list(skel["order"])]
+            res = dict(n_in=len(data))
+            get = lambda f: [ctx.lst(getattr(d, f)[j].raw() if f in ("name", "sequence", "cigar_op") else getattr(d, f)[j])
+                             for j in range(len(skel["order"]))]
+            res["before"] = {f: get(f) for f in skel.get("before", [])}
+            w.write(d)
+            res["after"] = {f: get(f) for f in skel.get("after", [])}      # the written table must still read as before the write
+            res["bytes"] = ctx.file_bytes(out)
+            return res
         else:
             w.write(data[:1]); w.write(data[1:])
         return dict(bytes=ctx.file_bytes(out), n_in=len(data))
@@ -319,11 +343,33 @@ class WriteBack(Harness):
                 opts.append(z3.And(*[x[f"m{i}"].t == bits[i] for i in range(n)],
                                    *[TI(g) == (e.t if hasattr(e, "t") else e) for g, e in zip(got, exp)]))
             return z_or(opts)
-        order = dict(all=list(range(n)), reverse=list(range(n))[::-1], fancy=[2, 0, 0], two_writes=list(range(n)))[sel]
+        order = self._order(skel)
         exp = head + [b for i in order for b in recs[i]]
         if len(exp) != len(got):
             return False
-        return z_and([TI(g) == (e.t if hasattr(e, "t") else e) for g, e in zip(got, exp)])
+        conj = [TI(g) == (e.t if hasattr(e, "t") else e) for g, e in zip(got, exp)]
+        for when in ("before", "after"):
+            for f, vals in out.get(when, {}).items():
+                if len(vals) != len(order):
+                    return False
+                for j, i in enumerate(order):
+                    sp = Decode._spec(None, skel, x, i)[self.FIELD[f]]
+                    v = vals[j]
+                    if isinstance(sp, list):
+                        if not isinstance(v, list) or len(v) != len(sp):
+                            return False
+                        conj += [TI(a) == b for a, b in zip(v, sp)]
+                    else:
+                        conj.append(TI(v) == sp)
+        return z_and(conj)
+
+    FIELD = dict(name="name", sequence="seq", quality="qual", cigar_op="ops", cigar_length="lens", position="pos", flag="flag", mapq="mapq")
+
+    def _order(self, skel):
+        n = len(skel["recs"])
+        sel = skel["sel"]
+        return skel["order"] if sel == "perm" else dict(all=list(range(n)), reverse=list(range(n))[::-1], fancy=[2, 0, 0],
+                                                        two_writes=list(range(n)))[sel]
 
     def oracle(self, skel, cx, cout):
         if isinstance(cout, Exc):
@@ -337,7 +383,16 @@ class WriteBack(Harness):
             if sel == "mask_then_slice":
                 order = order[1:]
         else:
-            order = dict(all=list(range(n)), reverse=list(range(n))[::-1], fancy=[2, 0, 0], two_writes=list(range(n)))[sel]
+            order = self._order(skel)
+
+        class C:
+            def __init__(s, v): s.t = v
+        for when in ("before", "after"):
+            for f, vals in cout.get(when, {}).items():
+                exp_f = [Decode._spec(None, skel, {k: C(v) for k, v in cx.items()}, i)[self.FIELD[f]] for i in order]
+                if vals != exp_f:
+                    return (f"records {order} selected from the file; field {f} read {when} writing the selection is {vals}, "
+                            f"the records hold {exp_f}")
         exp = head + [b for i in order for b in recs[i]]
         if cout["bytes"] != exp:
             return (f"write-back of records {order} ({sel}): {len(cout['bytes'])} bytes written, expected {len(exp)} "
